@@ -89,6 +89,13 @@ func propC04(c *Ctx) {
 			{Kind: "return", Target: "", Args: []string{"$0.rcvNxt", "(seqnum.Value.Size($0.rcvNxt, $0.rcvAcc@u) >> $0.rcvWndScale)"}, Guards: []string{}, Exact: true, N: 1, Why: "advertised window = (rcvAcc - rcvNxt) scaled down by our window scale"},
 		})
 	}
+	if fn := c.Fn(n2, "tcp.newReceiver"); fn != nil {
+		c.CheckSitesPresent(n2, fn, []SiteSpec{
+			{Kind: "store", Target: "tcp.receiver.rcvNxt", Args: []string{"new(tcp.receiver)", "($1 + 1)"}, Guards: []string{}, Exact: true, N: 1, Why: "the peer's SYN consumed irs: the first expected byte is irs+1"},
+			{Kind: "store", Target: "tcp.receiver.rcvAcc", Args: []string{"new(tcp.receiver)", "seqnum.Value.Add($1, ($2 + 1))"}, Guards: []string{}, Exact: true, N: 1, Why: "the right edge promised in the handshake: irs + 1 + rcvWnd"},
+			{Kind: "store", Target: "tcp.receiver.rcvWndScale", Args: []string{"new(tcp.receiver)", "$3"}, Guards: []string{}, Exact: true, N: 1, Why: "the negotiated shift (N8 decides which value arrives here)"},
+		})
+	}
 	c.OnlyIn(n2, "store receiver.rcvAcc", c.FieldStores("tcp.receiver", "rcvAcc"), "(*tcp.receiver).getSendParams", "tcp.newReceiver")
 	if fn := c.Fn(n2, "(*tcp.endpoint).receiveBufferAvailable"); fn != nil {
 		c.CheckSites(n2, fn, []SiteSpec{
@@ -248,7 +255,7 @@ func propC04(c *Ctx) {
 }
 
 func propC05(c *Ctx) {
-	c.Explanation = "The timing clauses (200 ms, doubling in time, one segment per timeout while the peer is silent, bounds on segments in flight as a function of the ACK history) are about wall-clock behaviour / numeric histories and are NOT decided. Decided (for all inputs): (L1) the constants InitialCwnd = 10, nDupAckThreshold = 3, minRTO = 200ms; (L2) the RTO store discipline: updateRTO's computed value is followed by the clamp to minRTO, a timer expiry stores exactly 2*rto (below the 60 s cap), and the retransmission timer is armed with rto; (L3) the data send loop runs only while outstanding < sndCwnd and counts every data segment sent; (L4) on a retransmission timeout fast recovery is left BEFORE the congestion controller collapses the window, every controller's HandleRTOExpired stores cwnd = 1, outstanding is reset and sending restarts from the head of the write list, in that order; (L5) duplicate-ACK counting: the complete reviewed site table of checkDuplicateAck (a duplicate is an ACK of sndUna with nothing new, same window, no data, while data is outstanding; the third one enters fast recovery after halving ssthresh; partial/complete ACKs during recovery), a true result leads to resendSegment, which retransmits the head of the write list; the NewReno recover point fr.last starts at iss in newSender (RFC 6582 3.2 step 1), is sndNxt-1 on entering/leaving recovery and on a timeout, and is stored nowhere else; (L6) the lazily disabled retransmission timer is a three-state machine (disabled/enabled/orphaned) whose state word is written only by its own four methods with exactly the reviewed transitions: a wake-up while orphaned is consumed into disabled, enable always re-arms the runtime timer when the state is disabled (or the pending wake-up would come too late) and ends enabled, disable orphans an armed timer, expiry is reported only at or after the target, and the runtime timer's callback asserts the waker given to init."
+	c.Explanation = "The timing clauses (200 ms, doubling in time, one segment per timeout while the peer is silent, bounds on segments in flight as a function of the ACK history) are about wall-clock behaviour / numeric histories and are NOT decided. Decided (for all inputs): (L1) the constants InitialCwnd = 10, nDupAckThreshold = 3, minRTO = 200ms; (L2) the RTO store discipline: updateRTO's computed value is followed by the clamp to minRTO, a timer expiry stores exactly 2*rto (below the 60 s cap), and the retransmission timer is armed with rto; (L3) the data send loop runs only while outstanding < sndCwnd and counts every data segment sent; (L4) on a retransmission timeout fast recovery is left BEFORE the congestion controller collapses the window, every controller's HandleRTOExpired stores cwnd = 1, outstanding is reset and sending restarts from the head of the write list, in that order; (L5) duplicate-ACK counting: the complete reviewed site table of checkDuplicateAck (a duplicate is an ACK of sndUna with nothing new, same window, no data, while data is outstanding; the third one enters fast recovery after halving ssthresh; partial/complete ACKs during recovery), a true result leads to resendSegment, which retransmits the head of the write list; the NewReno recover point fr.last starts at iss in newSender (RFC 6582 3.2 step 1), is sndNxt-1 on entering/leaving recovery and on a timeout, and is stored nowhere else; (L6) the lazily disabled retransmission timer is a three-state machine (disabled/enabled/orphaned) whose state word is written only by its own four methods with exactly the reviewed transitions: a wake-up while orphaned is consumed into disabled, enable always re-arms the runtime timer when the state is disabled (or the pending wake-up would come too late) and ends enabled, disable orphans an armed timer, expiry is reported only at or after the target, and the runtime timer's callback asserts the waker given to init. (L7) the Reno controller: slow start +acked capped at ssthresh, congestion avoidance +1 per full window, ssthresh = max(flight/2,2), Reno is the default, Update gets (flight before - flight after) outside fast recovery only, sndCwnd is stored only by the reviewed functions; newSender starts with cwnd 10, ssthresh unbounded, RTO 1 s."
 	l1 := c.Rule("L1", "K12 constants", "RFC 5681 / 6298 constants", 3)
 	for _, k := range []struct{ name, want, what string }{{"InitialCwnd", "10", "initial window of 10 segments"}, {"nDupAckThreshold", "3", "three duplicate ACKs"}, {"minRTO", "200000000", "200 ms RTO floor"}} {
 		v := pkgConst(c.P, "protocol/transport/tcp", k.name)
@@ -257,6 +264,13 @@ func propC05(c *Ctx) {
 			continue
 		}
 		c.Check(v.ExactString() == k.want, l1, "tcp."+k.name, "", k.what, "tcp."+k.name+" = "+v.ExactString()+", property says "+k.want)
+	}
+	if fn := c.Fn(l1, "tcp.newSender"); fn != nil {
+		c.CheckSitesPresent(l1, fn, []SiteSpec{
+			{Kind: "store", Target: "tcp.sender.sndCwnd", Args: []string{"new(tcp.sender)", "10"}, Guards: []string{}, Exact: true, N: 1, Why: "a connection starts with cwnd = InitialCwnd"},
+			{Kind: "store", Target: "tcp.sender.sndSsthresh", Args: []string{"new(tcp.sender)", "9223372036854775807"}, Guards: []string{}, Exact: true, N: 1, Why: "... in slow start (ssthresh unbounded)"},
+			{Kind: "store", Target: "tcp.sender.rto", Args: []string{"new(tcp.sender)", "1000000000"}, Guards: []string{}, Exact: true, N: 1, Why: "RFC 6298 2.1: initial RTO 1 s"},
+		})
 	}
 	l2 := c.Rule("L2", "K3/K5 site tables", "RTO stores: floor, doubling, arming", 5)
 	if fn := c.Fn(l2, "(*tcp.sender).updateRTO"); fn != nil {
@@ -380,6 +394,56 @@ func propC05(c *Ctx) {
 	}
 	c.OnlyIn(l5, "store to fastRecovery.last", c.FieldStores("tcp.fastRecovery", "last"), "tcp.newSender", "(*tcp.sender).enterFastRecovery", "(*tcp.sender).leaveFastRecovery", "(*tcp.sender).retransmitTimerExpired")
 	c.OnlyIn(l5, "store to fastRecovery.first", c.FieldStores("tcp.fastRecovery", "first"), "(*tcp.sender).checkDuplicateAck", "(*tcp.sender).enterFastRecovery", "(*tcp.sender).leaveFastRecovery")
+
+	// L7: the default (Reno) controller - the property bounds the flight by
+	// 10 + one per acknowledged segment / duplicate ACK, which holds only if the
+	// window grows by at most the number of acknowledged packets.
+	l7 := c.Rule("L7", "K9 site tables (closed, exact guards)", "Reno: window growth per ACK, ssthresh reduction, default controller selection", 14)
+	rs := "(*tcp.renoState)."
+	if fn := c.Fn(l7, rs+"updateSlowStart"); fn != nil {
+		nw := "phi{$0.s.sndSsthresh | ($0.s.sndCwnd + $1)}"
+		c.CheckSites(l7, fn, []SiteSpec{
+			{Kind: "store", Target: "tcp.sender.sndCwnd", Args: []string{"$0.s", nw}, Guards: []string{}, Exact: true, N: 1, Why: "slow start: cwnd grows by the number of packets acknowledged, capped at ssthresh"},
+			{Kind: "store", Target: "tcp.sender.sndCAAckCount", Args: []string{"$0.s", "0"}, Guards: []string{"!(($0.s.sndCwnd + $1) < $0.s.sndSsthresh)"}, Exact: true, N: 1, Why: "crossing into congestion avoidance restarts its ACK counter"},
+			{Kind: "return", Args: []string{"($1 - (" + nw + " - $0.s.sndCwnd))"}, Guards: []string{}, Exact: true, N: 1, Why: "the packets not used up by slow start are handed to congestion avoidance"},
+		})
+	}
+	if fn := c.Fn(l7, rs+"updateCongestionAvoidance"); fn != nil {
+		full := "!($0.s.sndCAAckCount@1 < $0.s.sndCwnd)"
+		c.CheckSites(l7, fn, []SiteSpec{
+			{Kind: "store", Target: "tcp.sender.sndCAAckCount", Args: []string{"$0.s", "($0.s.sndCAAckCount + $1)"}, Guards: []string{}, Exact: true, N: 1, Why: "acknowledged packets accumulate"},
+			{Kind: "store", Target: "tcp.sender.sndCwnd", Args: []string{"$0.s", "($0.s.sndCwnd + ($0.s.sndCAAckCount@1 / $0.s.sndCwnd))"}, Guards: []string{full}, Exact: true, N: 1, Why: "congestion avoidance: one more segment per full window of acknowledged packets"},
+			{Kind: "store", Target: "tcp.sender.sndCAAckCount", Args: []string{"$0.s", "($0.s.sndCAAckCount@1 % $0.s.sndCwnd@1)"}, Guards: []string{full}, Exact: true, N: 1, Why: "the remainder is carried over"},
+		})
+	}
+	if fn := c.Fn(l7, rs+"Update"); fn != nil {
+		ss := "($0.s.sndCwnd < $0.s.sndSsthresh)"
+		c.CheckSites(l7, fn, []SiteSpec{
+			{Kind: "call", Target: rs + "updateSlowStart", Args: []string{"$0", "$1"}, Guards: []string{ss}, Exact: true, N: 1, Why: "below ssthresh: slow start with the acknowledged packet count"},
+			{Kind: "call", Target: rs + "updateCongestionAvoidance", Args: []string{"$0", "phi{$1 | " + rs + "updateSlowStart($0, $1)}"}, Guards: []string{}, Exact: true, N: 1, Why: "what slow start did not use (or everything) goes to congestion avoidance"},
+		})
+	}
+	if fn := c.Fn(l7, rs+"reduceSlowStartThreshold"); fn != nil {
+		c.CheckSites(l7, fn, []SiteSpec{
+			{Kind: "store", Target: "tcp.sender.sndSsthresh", Args: []string{"$0.s", "($0.s.outstanding / 2)"}, Guards: []string{}, Exact: true, N: 1, Why: "RFC 5681 eq. 4: ssthresh = flight / 2"},
+			{Kind: "store", Target: "tcp.sender.sndSsthresh", Args: []string{"$0.s", "2"}, Guards: []string{"($0.s.sndSsthresh@1 < 2)"}, Exact: true, N: 1, Why: "... but at least 2"},
+		})
+	}
+	if fn := c.Fn(l7, rs+"HandleNDupAcks"); fn != nil {
+		c.CheckSites(l7, fn, []SiteSpec{{Kind: "call", Target: rs + "reduceSlowStartThreshold", Args: []string{"$0"}, Guards: []string{}, Exact: true, N: 1, Why: "three duplicate ACKs halve ssthresh"}})
+	}
+	if fn := c.Fn(l7, "(*tcp.sender).initCongestionControl"); fn != nil {
+		c.CheckSites(l7, fn, []SiteSpec{
+			{Kind: "call", Target: "tcp.newCubicCC", Args: []string{"$0"}, Guards: []string{"(\"cubic\" == $1)"}, Exact: true, N: 1, Why: "CUBIC only when asked for by name"},
+			{Kind: "call", Target: "tcp.newRenoCC", Args: []string{"$0"}, Guards: []string{"!(\"cubic\" == $1)"}, Exact: true, N: 1, Why: "Reno is the default controller"},
+		})
+	}
+	if fn := c.Fn(l7, "(*tcp.sender).handleRcvdSegment"); fn != nil {
+		c.CheckSitesPresent(l7, fn, []SiteSpec{
+			{Kind: "call", Target: "iface:tcp.congestionControl.Update", Args: []string{"$0.cc", "($0.outstanding - $0.outstanding@u)"}, Guards: []string{"!$0.fr.active", "seqnum.Value.InRange(($1.ackNumber - 1), $0.sndUna, $0.sndNxt)"}, Exact: true, N: 1, Why: "the controller is told exactly how many outstanding packets this ACK retired (flight before - flight after), and only outside fast recovery"},
+		})
+	}
+	c.OnlyIn(l7, "store to sender.sndCwnd", c.FieldStores("tcp.sender", "sndCwnd"), "tcp.newSender", rs+"updateSlowStart", rs+"updateCongestionAvoidance", rs+"HandleRTOExpired", "(*tcp.cubicState).updateSlowStart", "(*tcp.cubicState).Update", "(*tcp.cubicState).HandleRTOExpired", "(*tcp.sender).enterFastRecovery", "(*tcp.sender).leaveFastRecovery", "(*tcp.sender).checkDuplicateAck", "(*tcp.sender).sendData")
 
 	l6 := c.Rule("L6", "typestate: K3 confinement + K7 exact-guard site tables", "lazy retransmission timer state machine", 14)
 	tm := "(*tcp.timer)."
